@@ -46,7 +46,22 @@ def ep_programs(ctx):
     return out
 
 
+def generic_programs(ctx):
+    n_per_bin = ctx.pick(2, 8)
+    nb = ctx.pick(6, 16)
+    out = {}
+    for b in range(nb):
+        progs = []
+        for i in range(n_per_bin):
+            rng = ctx.rng("generic", b, i)
+            progs.append(spec.gen_generic_program(rng, f"x{b:02d}_{i:02d}"))
+        out[f"x{b:02d}"] = progs
+    return out
+
+
 def get(ctx, fam):
+    if fam == "generic":
+        return build_family(ctx, fam, generic_programs(ctx))
     if fam == "attrs":
         return build_family(ctx, fam, attr_programs(ctx))
     if fam == "epcfg":
